@@ -243,12 +243,19 @@ fn eval_cli(gt: &str, container: Container, selected: bool, scratch: &Scratch) -
     eval_cli_with(gt, container, selected, "-vv", false, scratch)
 }
 
+thread_local! {
+    /// when set, the BCF header of the probe call set lists its contigs against their dictionary
+    /// (IDX) order - the contig a record names is the one with its IDX, not the n-th header line
+    static CONTIGS_REVERSED: std::cell::Cell<bool> = std::cell::Cell::new(false);
+}
+
 /// `verbosity`: the logging flag of the run ("" for none); trace lines are only checked under -vv, the
 /// outcome, stdout and the locus named by an error under every flag. `reversed`: the list names the
 /// samples against their column order (one population, so the spectrum is the same).
 fn eval_cli_with(gt: &str, container: Container, selected: bool, verbosity: &str, reversed: bool, scratch: &Scratch) -> Option<Viol> {
     let ctx = CTXS[0];
-    let cs = call_set(gt, ctx);
+    let mut cs = call_set(gt, ctx);
+    cs.contig_lines_reversed = CONTIGS_REVERSED.with(|c| c.get());
     let bytes = render(&cs, container, &Layout::Single);
     let sarg = if selected { if reversed { "s1,s0" } else { "s0,s1" } } else { "s1" };
     let mut argv: Vec<&str> = vec!["create"];
@@ -509,11 +516,25 @@ pub fn run(tier: Tier) -> i32 {
         for v in res.into_iter().flatten() {
             rep.violation(v.0, v.1, v.2);
         }
+        // the same probes as BCF whose header lists the contigs against their IDX order
+        let res = par_map(picks.len(), |j| {
+            CONTIGS_REVERSED.with(|c| c.set(true));
+            let r = eval_cli_with(&gts[picks[j]], Container::RawBcf, true, "-vv", false, &scratch);
+            CONTIGS_REVERSED.with(|c| c.set(false));
+            r
+        });
+        for v in res.into_iter().flatten() {
+            let mut case = v.2;
+            if let J::Obj(o) = &mut case {
+                o.push(("contigs_reversed".into(), J::Bool(true)));
+            }
+            rep.violation(format!("{}|contig-lines-against-idx", v.0), v.1, case);
+        }
         rep.part(Part {
             name: "cli: logging flags and list order".into(),
             evaluations: vj.len() as u64,
             nontrivial: vj.len() as u64,
-            note: format!("{} GT strings of ploidy <= 3 x {{vcf, raw bcf}} x {{-vv with the list against the column order, no flag, -q, -qq, -qq reversed, -v reversed, -vvv}}: same outcome and stdout; under -vv the trace line names the probe sample; a failing run names chr2:7 under every flag", picks.len()),
+            note: format!("{} GT strings of ploidy <= 3 x {{vcf, raw bcf}} x {{-vv with the list against the column order, no flag, -q, -qq, -qq reversed, -v reversed, -vvv}}: same outcome and stdout; under -vv the trace line names the probe sample; a failing run names chr2:7 under every flag; and as BCF whose contig header lines stand against their IDX order (trace lines and errors still name chr2:7)", picks.len()),
             exhaustive: true,
             extra: vec![],
         });
@@ -618,6 +639,12 @@ pub fn replay(case: &J) -> Option<Vec<String>> {
     let ctx = if alt_dot { ALT_DOT } else { CTXS.iter().copied().find(|x| x.partner == partner && x.probe_first == probe_first)? };
     let mut v: Vec<Viol> = eval_lib(&gt, c, sel, ctx).into_iter().collect();
     v.extend(eval_cli(&gt, c, sel, &scratch));
+    if matches!(case.get("contigs_reversed"), Some(J::Bool(true))) {
+        CONTIGS_REVERSED.with(|c| c.set(true));
+        let r = eval_cli_with(&gt, c, sel, "-vv", false, &scratch);
+        CONTIGS_REVERSED.with(|c| c.set(false));
+        return Some(r.into_iter().map(|(k, w, _)| format!("{k} :: {w}")).collect());
+    }
     if let Some(verb) = case.get("verbosity").and_then(|x| x.as_str()) {
         let verb: &'static str = ["-vv", "", "-q", "-qq", "-v", "-vvv"].iter().copied().find(|k| *k == verb).unwrap_or("-vv");
         v.extend(eval_cli_with(&gt, c, sel, verb, matches!(case.get("reversed"), Some(J::Bool(true))), &scratch));
